@@ -8,8 +8,8 @@ from harness import core, env, r1cs
 RULE = ("rule-based state machine over the real module globals (guard, error-suppression flag, LinComb.ONE) with a model "
         "stack. Rules: enter a region (add_guard with a secret LinComb 0/1, a LinCombBool, or the int 1), leave "
         "(restore_guard), toggle ignore_errors at top level, run a generated tree of nested guarded(cond)(fn) calls / "
-        "lazy if_then_else branches whose bodies do traced work, recurse, and raise a sentinel exception at a chosen "
-        "statement (caught at a chosen ancestor level), walk an if/elif/else or while block context through "
+        "lazy if_then_else branches whose bodies do traced work, recurse, and raise a sentinel exception (an Exception subclass, a BaseException subclass, "
+        "KeyboardInterrupt, SystemExit, GeneratorExit or StopIteration) at a chosen statement (caught at a chosen ancestor level), walk an if/elif/else or while block context through "
         "enter/elif/else/exit, and attempt invalid entries (constant 0, non-boolean value, wrong type) that must raise "
         "and change nothing. Invariant after every step: guard is None iff no secret condition is active; guard.value == "
         "AND of the active conditions and equals its wire expression on the recorded witness; error suppression == base "
@@ -23,8 +23,18 @@ class Sentinel(Exception):
     pass
 
 
+class SentinelBase(BaseException):
+    """an exit that is not an Exception subclass (like KeyboardInterrupt, SystemExit, GeneratorExit)"""
+
+
+ABORTS = {"raise": Sentinel, "raise-base": SentinelBase, "raise-kbd": KeyboardInterrupt, "raise-exit": SystemExit,
+          "raise-genexit": GeneratorExit, "raise-stopiter": StopIteration}
+ABORT_TYPES = tuple(ABORTS.values())
+
+
 tree_strategy = st.recursive(
-    st.tuples(st.just("leaf"), st.sampled_from(["work", "raise", "cmp", "work"])),
+    st.tuples(st.just("leaf"), st.sampled_from(["work", "raise", "cmp", "work", "raise-base", "raise-kbd", "raise-exit",
+                                                "raise-genexit", "raise-stopiter"])),
     lambda ch: st.tuples(st.just("node"), st.integers(0, 1), st.sampled_from(["lc", "bool", "ite_true", "ite_false", "int1"]),
                          st.lists(ch, min_size=1, max_size=3), st.booleans()),
     max_leaves=8)
@@ -117,10 +127,10 @@ def make_machine(stats):
             def run(node, depth, conds):
                 if node[0] == "leaf":
                     what = node[1]
-                    if what == "raise":
+                    if what in ABORTS:
                         if depth >= 2:
                             machine.exc_depth2 = True
-                        raise Sentinel()
+                        raise ABORTS[what]()
                     if what == "work":
                         x = rt.PrivVal(3) * rt.PrivVal(4)
                     else:
@@ -140,7 +150,7 @@ def make_machine(stats):
                         if catches and depth >= catch_level:
                             try:
                                 run(ch, depth + 1, inner)
-                            except Sentinel:
+                            except ABORT_TYPES:
                                 machine.check_inside(inner)
                         else:
                             run(ch, depth + 1, inner)
@@ -160,7 +170,7 @@ def make_machine(stats):
                         machine.fail("guard state after a nested region (depth %d, cond %d, %s) is not the state before it" % (depth, v, form))
             try:
                 run(tree, 0, [])
-            except Sentinel:
+            except ABORT_TYPES:
                 pass
             after = self.triple()
             if any(a is not b for a, b in zip(before, after)):
